@@ -16,11 +16,14 @@
      (6) view_reciprocity : P_ij(X-Y) = P_ji(rev Y - rev X) for a reciprocal scatterer.
      (5') qratio_direct_path_L / _T : the chain (1)-(5) instantiated end to end on the direct
          paths L and T (one interface) from the (sin, cos) layer of the interface model.
-   `qratio_end_to_end_partial`: the same instantiation for the 12 skip / double-skip paths
-   (2 and 3 interfaces: (2)-(4) apply to their interface lists, the bookkeeping is not
-   mechanised) and the passage from the `_auto` (angle) layer to the (sin, cos) layer inside
-   the path products; the harness measures Q c_last^2 sigma / Q' = kappa on the real code for
-   every path, element and scatterer (2e-15). *)
+     (5'') qratio_any_path : the general theorem for ANY number of interior interfaces (every
+         skip / double-skip path and mode word), from the per-interface relation (1).
+   `qratio_end_to_end_partial` (what is still not mechanised): reading the records of
+   qratio_any_path off `Model.Weights.transrefl_for_path` for the 14 concrete immersion paths
+   (which of the four relations (1) applies at which interface, and the passage from the
+   `_auto` angle layer to the (sin, cos) layer inside the products; done by hand for the
+   direct paths in (5')); the harness measures Q c_last^2 sigma / Q' = kappa on the real code
+   for every path, element and scatterer (2e-15). *)
 From Coq Require Import List ZArith Bool Reals Lra.
 From Arim Require Import Base.Num Base.NumR Model.Interface Model.Beamspread Model.Weights
                          Proofs.InterfaceProofs Proofs.BeamspreadProofs Proofs.ReciprocityProofs.
@@ -166,6 +169,28 @@ Theorem qratio_direct_path_T : forall sf cf sl cl st ct rho_f rho_s v_f v_l v_t,
   Q * (v_t * v_t) * (-1) = (rho_f * v_f * sqrt (v_f * f) / rho_s) * Q'.
 Proof. intros; apply qratio_direct_T; assumption. Qed.
 
+(* (5'') THE GENERAL THEOREM: any number of interior interfaces (so every skip and double-skip
+   path, any mode word), any leg lengths, directivity D, attenuation A and frequency f.
+   x :: l lists the interior interfaces in path order, each with its forward / reverse
+   displacement coefficients F, G, the cosines of its incidence and outgoing angles and the
+   velocity and density of its incoming and outgoing legs.  Hypotheses: positivity, consecutive
+   interfaces share a leg, and at every interface the displacement Stokes relation
+   `ifr_ratio_ok` — which is exactly what displacement_ratio_front_L/T and
+   displacement_ratio_refl_LT/TL (and reflexivity for LL, TT) establish.  The beamspread
+   factors are the MODEL's `virtual_distance` of the forward and of the reversed ray. *)
+Theorem qratio_any_path : forall x l r1 rs D A f,
+  Forall ifr_pos (x :: l) -> ifr_chained (x :: l) -> Forall ifr_ratio_ok (x :: l) ->
+  length rs = length (x :: l) -> 0 < r1 -> all_pos rs -> 0 < f ->
+  let gs := map ifr_gamma (x :: l) in
+  let vlast := fvout (last l x) in let rholast := frout (last l x) in
+  let vd := virtual_distance NumR (r1 :: rs) gs in
+  let vd' := virtual_distance NumR (rev (r1 :: rs)) (map Rinv (rev gs)) in
+  let Q := D * rprod fF (x :: l) * (1 / sqrt vd) * A in
+  let Q' := D * rprod fG (x :: l) * (1 / sqrt vd') * A * sqrt (vlast / f) in
+  Q * (vlast * vlast) * rprod ifr_sign (x :: l)
+  = (frin x * fvin x * sqrt (fvin x * f) / rholast) * Q'.
+Proof. exact qratio_general. Qed.
+
 (* (6) *)
 Theorem view_reciprocity : forall kappa cx cy sx sy QiX Q'iX QjY Q'jY Sxy Syx,
   cx <> 0 -> cy <> 0 -> sx * sx = 1 -> sy * sy = 1 ->
@@ -174,6 +199,18 @@ Theorem view_reciprocity : forall kappa cx cy sx sy QiX Q'iX QjY Q'jY Sxy Syx,
   sx * Sxy / (cx * cx) = sy * Syx / (cy * cy) ->
   Sxy * QiX * Q'jY = Syx * QjY * Q'iX.
 Proof. exact view_reciprocity_R. Qed.
+
+(* non-vacuity of (5''): two interfaces with concrete numbers satisfying every hypothesis *)
+Example qratio_any_path_premises :
+  let x := mkIfr 2 16 1 1 1 2 1 4 false in
+  let y := mkIfr 3 (- (9 / 2)) 1 1 2 3 4 4 true in
+  Forall ifr_pos [x; y] /\ ifr_chained [x; y] /\ Forall ifr_ratio_ok [x; y].
+Proof.
+  cbv zeta. split; [|split].
+  - repeat constructor; simpl; lra.
+  - simpl. repeat split; reflexivity.
+  - repeat constructor; unfold ifr_ratio_ok, ifr_sign; simpl; lra.
+Qed.
 
 (* non-vacuity of (5): one interface, normal incidence water -> steel (X = 1, s = 1) *)
 Example qratio_premises_satisfiable :
